@@ -18,7 +18,9 @@ Op lines (strings/keys as hex, values as `raw~nrm` tokens, see harness/c10):
   mk h=H at=SVC f=F n=N uid=HEX | on h=H s=SCRIPT | snap | topo m=SVC:STATE,… (members; the other services are not) |
   p.mkf f=F n=N | p.mkb h=H f=F n=N uid=HEX | p.on f=F n=N s=SCRIPT | p.on h=H s=SCRIPT | u.<anything>
   SCRIPT = statements separated by `;` :
-  get/K set/K/V bind/UID id push pushnw query json keep/H pushto/F/N from/F/N updraw/HEX fromraw/HEX
+  get/K set/K/V bind/UID id push pushnw query json keep/H clone/H kick busy pushto/F/N from/F/N updraw/HEX fromraw/HEX
+  Every observation of an op during which connections were removed ends with ` closed=F#N=MAP|…`: what the
+  close handler of each removed connection saw (sorted by connection).
   park f=F n=N svc=T t=TAG s=SCRIPT : the handler runs SCRIPT and suspends without answering;
   resume t=TAG s=SCRIPT : it resumes, re-reads its session from its context, runs SCRIPT and answers
 -/
@@ -35,7 +37,9 @@ def strOfHex (h : String) : String :=
 /-- the node of the harness; service names are carried as hex, like every string value -/
 def cfg : Cfg :=
   { services := [(hexOfString "gate-1", "gate", true), (hexOfString "gate-2", "gate", true),
-                 (hexOfString "chat-1", "chat", false), (hexOfString "chat-2", "chat", false)]
+                 (hexOfString "chat-1", "chat", false), (hexOfString "chat-2", "chat", false),
+                 -- `room`: a service type nobody registered a route rule for (routed by `app.defaultRoute`)
+                 (hexOfString "room-1", "room", false), (hexOfString "room-2", "room", false)]
     routeKey := [("chat", "chatid")] }
 
 /-! ### tokens -/
@@ -113,6 +117,9 @@ def parseSOp (t : String) : Option (SOp Tok) :=
   | ["query"] => some .query
   | ["json"] => some .json
   | ["keep", h] => some (.keep h)
+  | ["kick"] => some .kick
+  | ["busy"] => some .busy
+  | ["clone", h] => some (.clone h)
   | ["pushto", f, n] => n.toNat?.map fun n => .pushTo (hexOfString f, n)
   | ["from", f, n] => n.toNat?.map fun n => .fromF (hexOfString f, n)
   | ["updraw", _] => some .updRaw
@@ -169,6 +176,10 @@ def parseOp (ws : List String) : Option (Op Tok) :=
 structure DSt where
   st : State Tok := State.init
   parked : List (String × (Conn × Bool)) := []
+  /-- removed at the end of the last operation, with the map the close handlers saw -/
+  gone : List (Conn × AL Tok) := []
+  /-- the cluster view (member order, node states) of the last topology update -/
+  view : View := none
 
 def relayOf (s : State Tok) (c : Conn) : String :=
   match lget s.fronts c with
@@ -179,9 +190,19 @@ def hasKeep (sc : List (SOp Tok)) : Bool := sc.any fun o => match o with | .keep
 
 def frontType (c : Conn) : String := (cfg.typeOf c.1).getD ""
 
-def stepLine (d : DSt) (line : String) : DSt × String :=
+/-- ` closed=F#N=MAP|…` for the connections removed at the end of the turn -/
+def goneSuffix (gone : List (Conn × AL Tok)) : String :=
+  if gone.isEmpty then ""
+  else
+    let es := (gone.map fun e => (s!"{strOfHex e.1.1}#{e.1.2}", showJson (SData.toJson e.2))).foldr insertKey []
+    " closed=" ++ "|".intercalate (es.map fun e => e.1 ++ "=" ++ e.2)
+
+def stepLine0 (d : DSt) (line : String) : DSt × String :=
   let ws := words line
+  let d := { d with gone := [] }
   let s := d.st
+  -- every operation includes the end of its turn (the queued removals run)
+  let step := fun (cfg : Cfg) (s : State Tok) (op : Op Tok) => stepF cfg (defaultRoute cfg d.view) s op
   match ws.head? with
   | some "reset" => ({}, "ok")
   | some "park" =>
@@ -193,11 +214,11 @@ def stepLine (d : DSt) (line : String) : DSt × String :=
         let r := step cfg s (.req c svc false (if local_ then sc else sc ++ [.keep ("@" ++ tag)]))
         match r.obs with
         | .ran a none rs _ =>
-          ({ st := r.st, parked := (tag, (c, true)) :: d.parked }, s!"at={strOfHex a} local r={showRs rs} resp=parked")
+          ({ d with st := r.st, gone := r.gone, parked := (tag, (c, true)) :: d.parked }, s!"at={strOfHex a} local r={showRs rs} resp=parked")
         | .ran a (some e) rs _ =>
-          ({ st := r.st, parked := (tag, (c, false)) :: d.parked },
+          ({ d with st := r.st, gone := r.gone, parked := (tag, (c, false)) :: d.parked },
             s!"at={strOfHex a} uid=s{e.uid} front={strOfHex e.frontId} conn=n{e.sessionId} r={showRs rs.dropLast} resp=parked")
-        | o => ({ d with st := r.st }, showObs o)
+        | o => ({ d with st := r.st, gone := r.gone }, showObs o)
     | _, _, _, _ => (d, "bad-op")
   | some "resume" =>
     match kv ws "t", (kv ws "s").bind parseScript with
@@ -213,14 +234,14 @@ def stepLine (d : DSt) (line : String) : DSt × String :=
           else
             let r := step cfg s (.req c (frontType c) false sc)
             match r.obs with
-            | .ran _ _ rs _ => ({ d with st := r.st }, s!"r={showRs rs} resp=ok relay={relayOf r.st c}")
-            | o => ({ d with st := r.st }, showObs o)
+            | .ran _ _ rs _ => ({ d with st := r.st, gone := r.gone }, s!"r={showRs rs} resp=ok relay={relayOf r.st c}")
+            | o => ({ d with st := r.st, gone := r.gone }, showObs o)
         else
           let r := step cfg s (.on ("@" ++ tag) sc)
           match r.obs with
           | .script rs =>
-            ({ d with st := r.st }, s!"r={showRs rs} " ++ (if live then s!"resp=ok relay={relayOf r.st c}" else "resp=gone relay=-"))
-          | o => ({ d with st := r.st }, showObs o)
+            ({ d with st := r.st, gone := r.gone }, s!"r={showRs rs} " ++ (if live then s!"resp=ok relay={relayOf r.st c}" else "resp=gone relay=-"))
+          | o => ({ d with st := r.st, gone := r.gone }, showObs o)
     | _, _ => (d, "bad-op")
   | some w =>
     if w.startsWith "u." then (d, "unguarded")
@@ -230,9 +251,13 @@ def stepLine (d : DSt) (line : String) : DSt × String :=
         let extra := match op, r.obs with
           | .req c _ _ _, .ran _ _ _ resp => " relay=" ++ (if resp == .ok then relayOf r.st c else "-")
           | _, _ => ""
-        ({ d with st := r.st }, showObs r.obs ++ extra)
+        ({ d with st := r.st, gone := r.gone, view := nextView d.view op }, showObs r.obs ++ extra)
       | none => (d, "bad-op")
   | none => (d, "bad-op")
+
+def stepLine (d : DSt) (line : String) : DSt × String :=
+  let r := stepLine0 d line
+  (r.1, r.2 ++ goneSuffix r.1.gone)
 
 /-! ### the property predicate on implementation observations
 
@@ -276,6 +301,8 @@ structure SB where
   learnt : Log                -- envelope `_ID`, then every queried map (normalised), newest first
   risk : Bool                 -- un-pushed sets were pending when a query succeeded (D16 situation)
 
+def allSvcs : List String := ["gate-1", "gate-2", "chat-1", "chat-2", "room-1", "room-2"]
+
 structure Spec where
   next : List (String × Nat) := []
   conns : List ((String × Nat) × Log) := []           -- live connections
@@ -286,11 +313,15 @@ structure Spec where
                                                        -- dirty: what the maps would be under defect D16 (only used to name it)
   parked : List (String × ((String × Nat) × Bool)) := []  -- suspended handlers: tag ↦ (connection, front-local?)
   off : Bool := false                                  -- a violation was reported: nothing more is judged until the next reset
+  view : List (String × Nat) := allSvcs.map fun n => (n, 1)  -- members in the order of the last topology update, with node states
+  closing : List (String × Nat) := []                  -- sockets closed during the current op (client gone, kick): still sessions
+                                                       -- until the op ends; then their close handlers see their maps and they are gone
 
 def fronts : List String := ["gate-1", "gate-2"]
 def typeOfSvc (n : String) : Option String :=
   if n == "gate-1" || n == "gate-2" then some "gate"
-  else if n == "chat-1" || n == "chat-2" then some "chat" else none
+  else if n == "chat-1" || n == "chat-2" then some "chat"
+  else if n == "room-1" || n == "room-2" then some "room" else none
 
 def Spec.conn (s : Spec) (c : String × Nat) : Option Log := (s.conns.find? (fun e => e.1 == c)).map (·.2)
 
@@ -300,6 +331,9 @@ def Spec.altOf (s : Spec) (c : String × Nat) : Option Log := (s.alt.find? (fun 
 def Spec.write (s : Spec) (c : String × Nat) (ws : Log) (both : Bool := true) : Spec :=
   { s with conns := s.conns.map fun e => if e.1 == c then (c, ws ++ e.2) else e
            alt := if both then s.alt.map fun e => if e.1 == c then (c, ws ++ e.2) else e else s.alt }
+
+def Spec.close (s : Spec) (c : String × Nat) : Spec :=
+  if s.closing.contains c then s else { s with closing := c :: s.closing }
 
 def initLog (f : String) (n : Nat) : Log :=
   [(hexKeyNetId, ⟨s!"n{n}", s!"nf{n}", true⟩), (hexKeyServerId, svStr (hexOfString f))]
@@ -357,6 +391,9 @@ def specSOp (st : ScSt) (t : String) : ScSt × Exp :=
     -- after `|`: what defect D16 would show instead (only used to name it)
     | ["json"] => (st, ⟨showSnapMap log, "C10/merge-wrong|" ++ showSnapMap ((st.sp.altOf c).getD log)⟩)
     | ["keep", _] => (st, ⟨"nokeep", "C10/harness"⟩)
+    | ["clone", _] => (st, ⟨"nokeep", "C10/harness"⟩)
+    | ["kick"] => (if isNode then { st with sp := st.sp.close c } else st, ⟨if isNode then "ok" else "nons", "C10/kick"⟩)
+    | ["busy"] => (st, ⟨if isNode then "ok" else "nons", "C10/harness"⟩)
     | ["updraw", _] => (st, ⟨"ok", "C10/merge-wrong"⟩)
     | _ => (st, ⟨"bad-op", "C10/harness"⟩)
   | .back b =>
@@ -404,6 +441,20 @@ def specSOp (st : ScSt) (t : String) : ScSt × Exp :=
       else match st.kept with
         | some _ => (st, ⟨"nokeep", "C10/harness"⟩)
         | none => ({ st with kept := some h }, ⟨"ok", "C10/harness"⟩)
+    | ["clone", h] =>
+      -- a new session object for the same connection, knowing only the uid the original reports
+      if b.ns == "" || st.sp.hs.any (·.1 == h) then (st, ⟨"nokeep", "C10/harness"⟩)
+      else
+        let uid := (sbGet b hexKeyUId).getD "s"
+        if !isStrTok uid then (st, ⟨"panic", "C10/clone"⟩)
+        else ({ st with sp := { st.sp with hs := (h, ⟨b.ns, b.front, b.ord, [], false, [(hexKeyUId, ⟨uid, uid, true⟩)], false⟩) :: st.sp.hs } },
+              ⟨"ok", "C10/clone"⟩)
+    | ["kick"] =>
+      if b.ns == "" then (st, ⟨"nons", "C10/harness"⟩)
+      else if fronts.contains b.front && !st.sp.away.contains b.front && (st.sp.conn tgt).isSome then
+        ({ st with sp := st.sp.close tgt }, ⟨"ok", "C10/kick"⟩)
+      else (st, ⟨"ok", "C10/kick"⟩)
+    | ["busy"] => (st, ⟨if b.ns == "" then "nons" else "ok", "C10/harness"⟩)
     | ["pushto", fr, n] =>
       let c := (fr, n.toNat?.getD 0)
       match st.sp.conn c with
@@ -459,9 +510,15 @@ def cmpResults (exps : List Exp) (got : String) : Option (String × String) :=
 def viol (sp : Spec) (sig : String) (op obs why : String) : Spec × String :=
   ({ sp with off := true }, s!"VIOLATION {sig} {op} => {obs} ({why})")
 
-/-- instance and uid a forwarded message of a connection with this log gets -/
-def routeOf (log : Log) : String × String :=
-  (match log.find hexChatId with
+/-- instance and uid a forwarded message of a connection with this log gets: `chat` has a rule (the instance
+the session names under `chatid`), every other type goes to the first Working member of the type in view
+order, whatever the session holds -/
+def routeOf (view : List (String × Nat)) (svc : String) (log : Log) : String × String :=
+  (if svc != "chat" then
+      match view.find? (fun e => typeOfSvc e.1 == some svc && e.2 == 1) with
+      | some e => e.1
+      | none => "no_service"
+    else match log.find hexChatId with
     | some v => if isStrTok v.raw then strOfHex (dropS v.raw 1) else ""
     | none => "",
    match log.find hexKeyUId with
@@ -473,14 +530,16 @@ def obsField (ows : List String) (k : String) : String := (kv ows k).getD ""
 /-- the response check of a finished handler: the answer, and the connection's map at the moment the front
 relays it — everything the handler pushed before it answered must already be there -/
 def checkAnswer (sp' : Spec) (c : String × Nat) (ntf : Bool) (op obs : String) (ows : List String) : Spec × String :=
-  let wr := if ntf then "none" else "ok"
+  -- an answer for a connection whose socket was closed meanwhile is lost
+  let lost := ntf || sp'.closing.contains c
+  let wr := if lost then "none" else "ok"
   if obsField ows "resp" != wr then viol sp' "C10/response" op obs ("wanted resp=" ++ wr)
   else
-    let wantRelay := if ntf then "-" else match sp'.conn c with | some l => showSnapMap l | none => "-"
+    let wantRelay := if lost then "-" else match sp'.conn c with | some l => showSnapMap l | none => "-"
     if obsField ows "relay" == wantRelay then (sp', "ok")
     else viol sp' "C10/push-after-response" op obs ("at the relay of the answer the map must be " ++ wantRelay)
 
-def specLine (sp : Spec) (line : String) : Spec × String :=
+def specLine0 (sp : Spec) (line : String) : Spec × String :=
   match line.splitOn "\t" with
   | [op, obs] =>
     let ws := words op
@@ -508,7 +567,7 @@ def specLine (sp : Spec) (line : String) : Spec × String :=
         match kv ws "f", kvNat ws "n" with
         | some f, some n =>
           let live := (sp.conn (f, n)).isSome && fronts.contains f
-          let sp' := if live then { sp with conns := sp.conns.filter (·.1 != (f, n)), alt := sp.alt.filter (·.1 != (f, n)) } else sp
+          let sp' := if live then sp.close (f, n) else sp
           let want := if live then "ok" else "closed"
           if obs == want then (sp', "ok") else viol sp' "C10/close" op obs ("wanted " ++ want)
         | _, _ => (sp, "bad-op")
@@ -540,9 +599,9 @@ def specLine (sp : Spec) (line : String) : Spec × String :=
                 | none => finish st.sp true
             else
               -- forwarded: the rule reads the CURRENT map of the connection, the envelope its current uid
-              let (inst, uidTok) := routeOf log
+              let (inst, uidTok) := routeOf sp.view svc log
               -- defect D16 is named when the observation is what the maps WITHOUT the dropped pushes give
-              let (instA, uidA) := routeOf ((sp.altOf c).getD log)
+              let (instA, uidA) := routeOf sp.view svc ((sp.altOf c).getD log)
               let d16 (gotAt gotUid : String) (sig : String) : String :=
                 if (instA != inst || uidA != uidTok) && (gotAt == instA || (typeOfSvc instA).isNone && gotAt == "none") && (gotUid == uidA || gotAt == "none")
                 then "C10/set-query-push-lost" else sig
@@ -621,8 +680,11 @@ def specLine (sp : Spec) (line : String) : Spec × String :=
             | some (sig, why) => viol sp' sig op obs why
             | none => (sp', "ok")
       | "topo" =>
-        let ms := ((kv ws "m").getD "").splitOn "," |>.filterMap fun e => (e.splitOn ":").head?
-        ({ sp with away := (fronts ++ ["chat-1", "chat-2"]).filter fun n => !ms.contains n }, "ok")
+        let vw := ((kv ws "m").getD "").splitOn "," |>.filterMap fun e =>
+          match e.splitOn ":" with
+          | [n, st] => if (typeOfSvc n).isSome then st.toNat?.map fun k => (n, k) else none
+          | _ => none
+        ({ sp with away := allSvcs.filter (fun n => !vw.any (·.1 == n)), view := vw }, "ok")
       | "snap" =>
         let want := "snap " ++ " ".intercalate (fronts.flatMap fun f =>
           ((sp.conns.filter (·.1.1 == f)).map fun e => s!"{f}#{e.1.2}={showSnapMap e.2}"))
@@ -654,6 +716,25 @@ def specLine (sp : Spec) (line : String) : Spec × String :=
         | _, _, _, _ => (sp, "bad-op")
       | _ => (sp, "ok")
     | none => (sp, "bad-line")
+  | _ => (sp, "bad-line")
+
+/-- the end of the op: the queued removals run — every connection whose socket was closed during the op
+is handed to its close handler with its map AS OF NOW (everything merged until then), then it is gone -/
+def specLine (sp : Spec) (line : String) : Spec × String :=
+  match line.splitOn "\t" with
+  | [op, obs] =>
+    let (core, got) := match obs.splitOn " closed=" with
+      | [a, b] => (a, b)
+      | _ => (obs, "")
+    let (sp1, v) := specLine0 sp (op ++ "\t" ++ core)
+    let gone := sp1.closing.filterMap fun c => (sp1.conn c).map fun l => (s!"{c.1}#{c.2}", showSnapMap l)
+    let want := "|".intercalate ((gone.foldr insertKey []).map fun e => e.1 ++ "=" ++ e.2)
+    let sp2 := { sp1 with conns := sp1.conns.filter (fun e => !sp1.closing.contains e.1),
+                          alt := sp1.alt.filter (fun e => !sp1.closing.contains e.1), closing := [] }
+    if v != "ok" || sp1.off || (words op).head?.any (·.startsWith "u.") then (sp2, v)
+    else if got == want then (sp2, "ok")
+    else viol sp2 "C10/close-handler-saw-stale-data" op obs
+      ("the close handlers must be handed " ++ (if want.isEmpty then "nothing" else want))
   | _ => (sp, "bad-line")
 
 end Cell2v.Driver.C10
